@@ -10,7 +10,7 @@ META = {
     "bounds": {"quick": "every binary tree shape with 1..4 nodes (symbolic child indices) for the three iterators; 1..3 nodes for abandoned-then-completed iteration and "
                         "bintree_free / free_left / free_right (heap nodes, free() as deallocator); list iterator on left- and right-leaning spines "
                         "of up to 2 list nodes + 3 elements; the empty tree",
-               "thorough": "shapes with 1..5 nodes for in-order / pre-order, 1..4 for post-order, completion and free; spines of up to 3 list nodes + 4 elements"},
+               "thorough": "shapes with 1..5 nodes for in-order / pre-order, 1..4 for post-order, completion and free; spines as in the quick tier (3 list nodes + 4 elements exceed 14 GB)"},
     "outside": ["trees with more nodes than stated", "list spines that are neither left- nor right-leaning, or that contain NULL elements (property scope)",
                 "nodes that are not 2-byte aligned (property scope)"],
     "assumptions": ["malloc does not fail (harness)", "the recursive traversals in bintree.c define the promised order"],
@@ -23,7 +23,7 @@ def queries(tier, kf):
     cfg = [("inorder", "h_inorder", 4 if q else 5, {}), ("preorder", "h_preorder", 4 if q else 5, {}), ("postorder", "h_postorder", 4 if q else 4, {}),
            ("complete-in", "h_complete", 3 if q else 4, {"DIR": 0}), ("complete-pre", "h_complete", 3 if q else 4, {"DIR": 1}),
            ("complete-post", "h_complete", 3 if q else 4, {"DIR": 2}),
-           ("list", "h_list", 5 if q else 7, {}), ("free", "h_free", 3 if q else 4, {}),
+           ("list", "h_list", 5, {}), ("free", "h_free", 3 if q else 4, {}),
            ("free-lr", "h_free_lr", 3 if q else 4, {}), ("empty", "h_empty", 2, {})]
     qs = []
     for name, entry, n, dx in cfg:
